@@ -120,9 +120,12 @@ TEMPLATE = common.HEAD + common.STR_SHIMS + common.TOKEN_TYPES + KERNEL + r'''
 impl VFile {
     // Write::write_all of the here-string: what is written must be the word followed by one newline (C04), whatever the word ends in
     #[verifier::external_body]
-    pub fn write_here_string(&mut self, b: &[u8], Ghost(word): Ghost<Seq<char>>) -> (r: Result<(), VxIoErr>)
-        requires b@ == spec_bytes_of(word.push('\n')) //@L C04.rsp.the_here_string_is_the_word_followed_by_one_newline
-        ensures final(self).fd == old(self).fd
+    // ... and while the shell writes it must not hold the read end of that pipe itself: a stage that exits without reading would leave the writer blocked
+    // for ever on a full pipe (no reader gone, no EPIPE) as soon as the text is larger than the pipe (C02: the pipeline terminates)
+    pub fn write_here_string(&mut self, b: &[u8], Ghost(word): Ghost<Seq<char>>, Ghost(rd): Ghost<int>, Tracked(k): Tracked<&mut Kernel>) -> (r: Result<(), VxIoErr>)
+        requires b@ == spec_bytes_of(word.push('\n')), //@L C04.rsp.the_here_string_is_the_word_followed_by_one_newline
+            !old(k).fds.contains_key(rd) //@L C02.rsp.the_shell_has_closed_its_read_end_of_the_here_string_pipe_before_it_writes
+        ensures final(self).fd == old(self).fd, *final(k) == *old(k)
     { unimplemented!() }
 }
 //@TYPE Command
@@ -559,7 +562,7 @@ release_stage_fds = Fn(C, 'release_stage_fds',
 
 run_single_program = Fn(C, 'run_single_program', ret='r', pre_rewrites=RSP_RW, file_drops=True,
     add_params='Ghost(w): Ghost<Wiring>, Tracked(k): Tracked<&mut Kernel>',
-    ghost_args={'pipe': 'Tracked(k)', 'close': 'Tracked(k)', 'dup': 'Tracked(k)', 'dup2': 'Tracked(k)', 'fork': 'Tracked(k)', 'release_stage_fds': 'Tracked(k)', 'write_here_string': 'Ghost(redirect_from.1@)',
+    ghost_args={'pipe': 'Tracked(k)', 'close': 'Tracked(k)', 'dup': 'Tracked(k)', 'dup2': 'Tracked(k)', 'fork': 'Tracked(k)', 'release_stage_fds': 'Tracked(k)', 'write_here_string': 'Ghost(redirect_from.1@), Ghost(fds.0 as int), Tracked(k)',
                 'create_raw_fd_from_file': 'Tracked(k)', 'get_fd_from_file': 'Tracked(k)', 'vx_setpgid': 'Tracked(k)',
                 'give_terminal_to': 'Tracked(k)', 'vx_file_from_raw_fd': 'Tracked(k)'},
     let_types={'fds_stdin': 'Option<(RawFd, RawFd)>'},
